@@ -1,6 +1,7 @@
 package props
 
 import (
+	"sort"
 	"go/token"
 
 	"golang.org/x/tools/go/ssa"
@@ -124,4 +125,74 @@ func c09Conserve(c *core.Check) {
 			"a child that failed the test of the rule (a table cell outside a row, a row outside a table) is handed on without the anonymous wrapper: the tree holds a table-internal box outside a table")
 	})
 	_ = token.NoPos
+}
+
+// c09CSSWhitespace (R12): the text that the box-generation rules may drop between table parts, flex items and
+// blocks is text made of CSS white space only: space, tab, LF, CR, FF (CSS 2.1 §17.2.1, §9.2.1.1).  A no-break
+// space or an ideographic space is content.  The predicates that isWhitespace uses — its default and every function
+// handed to it — do not call the Unicode-wide helpers of the standard library.
+func c09CSSWhitespace(c *core.Check) {
+	p := c.Prog
+	r := c.Rule("R12", "white-space-only text is decided with the five CSS white space characters: no predicate used by boxes.isWhitespace (its default, and each function passed as its second argument) calls strings.TrimSpace, strings.Fields, strings.TrimFunc or unicode.IsSpace", 1)
+	iw := p.Fn("html/boxes", "isWhitespace")
+	if iw == nil {
+		r.Anchor("html/boxes.isWhitespace")
+		return
+	}
+	preds := map[*ssa.Function]bool{}
+	// the default: functions referenced inside isWhitespace
+	core.Instrs(iw, func(in ssa.Instruction) {
+		for _, op := range in.Operands(nil) {
+			if f, ok := (*op).(*ssa.Function); ok && f.Blocks != nil && f.Pkg == iw.Pkg {
+				preds[f] = true
+			}
+		}
+	})
+	// predicates passed by the callers
+	for _, fn := range p.FuncsOfPkg("html/boxes") {
+		if fn.Blocks == nil {
+			continue
+		}
+		core.Instrs(fn, func(in ssa.Instruction) {
+			call, ok := in.(*ssa.Call)
+			if !ok || call.Call.StaticCallee() != iw || len(call.Call.Args) < 2 {
+				return
+			}
+			switch x := call.Call.Args[1].(type) {
+			case *ssa.Function:
+				preds[x] = true
+			case *ssa.MakeClosure:
+				if f, ok := x.Fn.(*ssa.Function); ok {
+					preds[f] = true
+				}
+			}
+		})
+	}
+	if len(preds) == 0 {
+		r.Unknown("html/boxes.isWhitespace | predicates", p.Pos(iw.Pos()), "no predicate found")
+		return
+	}
+	var fns []*ssa.Function
+	for f := range preds {
+		fns = append(fns, f)
+	}
+	sort.Slice(fns, func(i, j int) bool { return fns[i].String() < fns[j].String() })
+	for _, f := range fns {
+		bad := ""
+		core.Instrs(f, func(in ssa.Instruction) {
+			call, ok := in.(*ssa.Call)
+			if !ok {
+				return
+			}
+			callee := call.Call.StaticCallee()
+			if callee == nil || callee.Pkg == nil {
+				return
+			}
+			switch callee.Pkg.Pkg.Path() + "." + callee.Name() {
+			case "strings.TrimSpace", "strings.Fields", "strings.TrimFunc", "unicode.IsSpace", "strings.FieldsFunc":
+				bad = callee.Pkg.Pkg.Path() + "." + callee.Name()
+			}
+		})
+		r.Cond(bad == "", core.FuncName(f)+" | white space predicate", p.Pos(f.Pos()), "no Unicode-wide white space helper", "the predicate calls "+bad+", which also treats U+00A0, U+3000 … as white space: a cell or a row made of a no-break space is discarded as inter-element white space")
+	}
 }
